@@ -551,7 +551,7 @@ theorem process_nf {σ} {snap : Snap} (hwf : SnapWf snap) {o : Opts} (hfol : o.f
       process snap o noPre st e w =
         if st.iters.length < o.minDepth then (none, st1, w)
         else if (o.files ∧ !e.file) ∨ (!o.files ∧ o.dirs ∧ !e.dir) then (none, st1, w)
-        else if e.dir ∧ o.contentsFirst then (none, { st1 with deferred := e :: st1.deferred }, w)
+        else if e.dir ∧ o.contentsFirst then (none, { st1 with deferred := (st.iters.length, e) :: st1.deferred }, w)
         else (some (.ok e), st1, w) := by
   unfold process
   simp only [hfol, noPre, mkIter_eq hwf hfol he]
@@ -806,7 +806,7 @@ theorem process_coarse {σ} {snap : Snap} (hwf : SnapWf snap) {o : Opts} (hfol :
     ∃ r st2, process snap o noPre st e w = (r, st2, w) ∧ (r = none ∨ r = some (.ok e)) ∧
       st2.started = st.started ∧
       frames st2 = (if descends o e st.iters.length then [modelKids snap o e] else []) ++ frames st ∧
-      (st2.deferred = st.deferred ∨ (r = none ∧ st2.deferred = e :: st.deferred)) := by
+      (st2.deferred = st.deferred ∨ (r = none ∧ st2.deferred = (st.iters.length, e) :: st.deferred)) := by
   obtain ⟨st1, h1, h2, h3, h4⟩ := process_nf hwf hfol st e w he
   rw [h4]
   split
@@ -858,7 +858,8 @@ theorem sub_left {a b c : List Entry} (h : Sub (a ++ b) c) : Sub a c :=
 
 /-- everything the machine may still yield: the deferred directories and every entry it will
     still visit (the walk without filters) -/
-def pendS (snap : Snap) (o : Opts) (st : ISt) : List Entry := st.deferred ++ remF snap (oM o) (frames st)
+def pendS (snap : Snap) (o : Opts) (st : ISt) : List Entry :=
+  st.deferred.map (·.2) ++ remF snap (oM o) (frames st)
 
 theorem remA_step {snap : Snap} (hwf : SnapWf snap) (o : Opts) {x : Entry} (hx : InSnap snap x)
     (xs : List Entry) (fb : List (List Entry)) :
@@ -878,16 +879,24 @@ theorem nextLoop_term {σ} {snap : Snap} (hwf : SnapWf snap) {o : Opts} (hfol : 
   | 0, _, _, _, h => by omega
   | f + 1, st, w, hok, hwork => by
     obtain ⟨started, openDesc, iters, deferred⟩ := st
-    by_cases hdef : o.contentsFirst = true ∧ iters.length < deferred.length
-    · cases deferred with
-      | nil => simp at hdef
+    cases iters with
+    | nil =>
+      cases deferred with
+      | nil => exact ⟨none, ⟨started, openDesc, [], []⟩, by simp only [nextLoop]; split <;> rfl, Or.inl rfl⟩
       | cons d ds =>
-        refine ⟨some (.ok d), ⟨started, openDesc, iters, ds⟩, ?_, Or.inr ⟨d, rfl, rfl, hok, by simp [workG, frames], Sub.refl _⟩⟩
-        cases iters <;> simp only [nextLoop, hdef, and_self, if_true]
-    · cases iters with
-      | nil => exact ⟨none, ⟨started, openDesc, [], deferred⟩, by simp only [nextLoop, hdef, if_false], Or.inl rfl⟩
-      | cons top below =>
-        obtain ⟨tp, tc, items⟩ := top
+        by_cases hcf : o.contentsFirst = true
+        · exact ⟨some (.ok d.2), ⟨started, openDesc, [], ds⟩, by simp only [nextLoop, hcf, if_true],
+            Or.inr ⟨d.2, rfl, rfl, hok, by simp [workG, frames], Sub.refl _⟩⟩
+        · exact ⟨none, ⟨started, openDesc, [], d :: ds⟩, by simp only [nextLoop, hcf, Bool.false_eq_true, if_false],
+            Or.inl rfl⟩
+    | cons top below =>
+      by_cases hdef : o.contentsFirst = true ∧ deferredReady (top :: below).length deferred = true
+      · cases deferred with
+        | nil => simp [deferredReady] at hdef
+        | cons d ds =>
+          exact ⟨some (.ok d.2), ⟨started, openDesc, top :: below, ds⟩, by simp only [nextLoop, hdef, and_self, if_true],
+            Or.inr ⟨d.2, rfl, rfl, hok, by simp [workG, frames], Sub.refl _⟩⟩
+      · obtain ⟨tp, tc, items⟩ := top
         cases items with
         | nil =>
           have hn : nextLoop snap o noPre (f + 1) ⟨started, openDesc, ⟨tp, tc, []⟩ :: below, deferred⟩ w =
@@ -945,7 +954,7 @@ theorem nextLoop_term {σ} {snap : Snap} (hwf : SnapWf snap) {o : Opts} (hfol : 
             cases r <;> rfl
           rw [hn]
           have hpend : pendS snap o ⟨started, openDesc, ⟨tp, tc, x :: xs⟩ :: below, deferred⟩ =
-              deferred ++ x :: remF snap (oM o) (frames st2) := by
+              deferred.map (·.2) ++ x :: remF snap (oM o) (frames st2) := by
             have : frames ⟨started, openDesc, ⟨tp, tc, x :: xs⟩ :: below, deferred⟩ =
               (x :: xs) :: frames ⟨started, openDesc, below, deferred⟩ := rfl
             simp only [pendS, this]
@@ -1245,85 +1254,193 @@ theorem walk_siblings {snap : Snap} (hwf : SnapWf snap) (o : Opts)
         simp at hd
         exact absurd hd.1 hne
 
-/-! ### contents first (no lower depth bound; no filter or `dirs()`) -/
+/-! ### contents first (every depth window and kind filter) -/
 
-/-- the options for which `contents_first` behaves and every directory passes the kind filter:
-    `min_depth = 0`, no `files()` filter (`dirs()` is allowed: since the repair of `process` a
-    directory is deferred only if it passed the filter, and with `dirs()` every directory does) -/
-structure PostOk (o : Opts) : Prop where
-  cf : o.contentsFirst = true
-  min : o.minDepth = 0
-  files : o.files = false
+/-- what an entry at depth `d` contributes itself -/
+def selfS (o : Opts) (e : Entry) (d : Nat) : List Entry := if selected o e d then [e] else []
 
-theorem selected_post {o : Opts} (ho : PostOk o) (e : Entry) (d : Nat) (hd : e.dir = true) :
-    selected o e d = true := by
-  simp [selected, ho.min, ho.files, hd]
-
-theorem selected_post_file {o : Opts} (ho : PostOk o) (e : Entry) (d : Nat) (hd : e.dir = false) :
-    selected o e d = !o.dirs := by
-  simp [selected, ho.min, ho.files, hd]
-
-theorem W_post_dir {snap : Snap} (hwf : SnapWf snap) {o : Opts} (ho : PostOk o) {e : Entry} (d : Nat)
+theorem W_cf_dir {snap : Snap} (hwf : SnapWf snap) {o : Opts} (hcf : o.contentsFirst = true) {e : Entry} (d : Nat)
     (he : InSnap snap e) (hd : e.dir = true) :
-    W snap o e d = (if descends o e d then (children snap o e).flatMap (fun c => W snap o c (d + 1)) else []) ++ [e] := by
+    W snap o e d = (if descends o e d then (children snap o e).flatMap (fun c => W snap o c (d + 1)) else []) ++
+      selfS o e d := by
   rw [W_unfold hwf o d he]
-  simp [ho.cf, hd, selected_post ho e d hd]
+  simp [hcf, hd, selfS]
 
-theorem W_post_file {snap : Snap} (hwf : SnapWf snap) {o : Opts} (ho : PostOk o) {e : Entry} (d : Nat)
-    (he : InSnap snap e) (hd : e.dir = false) : W snap o e d = if o.dirs then [] else [e] := by
+theorem W_cf_file {snap : Snap} (hwf : SnapWf snap) {o : Opts} {e : Entry} (d : Nat)
+    (he : InSnap snap e) (hd : e.dir = false) : W snap o e d = selfS o e d := by
   rw [W_unfold hwf o d he]
-  cases hdd : o.dirs <;> simp [hd, selected_post_file ho e d hd, descends, hdd]
+  simp [hd, descends, selfS]
 
-/-- frames interleaved with the deferred directories (frame, then the directory it belongs to) -/
-def remQ (snap : Snap) (o : Opts) : List (List Entry) → List Entry → List Entry
+/-- frames interleaved with the deferred directories: after the frame of height `j` comes the
+    directory found at depth `j - 1` (the one the frame belongs to), if it was deferred -/
+def remQ (snap : Snap) (o : Opts) : List (List Entry) → List (Nat × Entry) → List Entry
   | [], _ => []
-  | items :: below, df =>
-    items.flatMap (fun x => W snap o x (below.length + 1)) ++ df.head?.toList ++ remQ snap o below df.tail
+  | items :: below, [] => items.flatMap (fun x => W snap o x (below.length + 1)) ++ remQ snap o below []
+  | items :: below, (d, e) :: ds =>
+    items.flatMap (fun x => W snap o x (below.length + 1)) ++
+      (if d = below.length then e :: remQ snap o below ds else remQ snap o below ((d, e) :: ds))
 
-/-- what the machine will still yield with `contents_first` -/
-def remP (snap : Snap) (o : Opts) (fr : List (List Entry)) (df : List Entry) : List Entry :=
-  if fr.length < df.length then df.head?.toList ++ remQ snap o fr df.tail else remQ snap o fr df
+/-- what the machine will still yield with `contents_first`: a deferred directory whose depth the
+    stack has come back to is released first -/
+def remP (snap : Snap) (o : Opts) (fr : List (List Entry)) : List (Nat × Entry) → List Entry
+  | [] => remQ snap o fr []
+  | (d, e) :: ds => if fr.length ≤ d then e :: remQ snap o fr ds else remQ snap o fr ((d, e) :: ds)
 
-def Dinv (fr : List (List Entry)) (df : List Entry) : Prop := df.length = fr.length ∨ df.length = fr.length + 1
+/-- the depths recorded in the deferred stack decrease strictly from the top, below the bound `n` -/
+def DOk : Nat → List (Nat × Entry) → Prop
+  | _, [] => True
+  | n, (d, _) :: ds => d < n ∧ DOk d ds
 
-theorem remP_pop_deferred (snap : Snap) (o : Opts) (fr : List (List Entry)) (d : Entry) (ds : List Entry)
-    (h : ds.length = fr.length) : remP snap o fr (d :: ds) = d :: remP snap o fr ds := by
+theorem DOk.mono {n n' : Nat} (h : n ≤ n') : ∀ {df : List (Nat × Entry)}, DOk n df → DOk n' df
+  | [], _ => trivial
+  | (_, _) :: _, ⟨h1, h2⟩ => ⟨by omega, h2⟩
+
+/-- the deferred stack against the stack of frames: depths strictly decreasing, at most the height
+    of the stack (equal only for a directory that is to be released next) -/
+def Dinv (fr : List (List Entry)) (df : List (Nat × Entry)) : Prop := DOk (fr.length + 1) df
+
+theorem remP_not_ready (snap : Snap) (o : Opts) (fr : List (List Entry)) (df : List (Nat × Entry))
+    (h : deferredReady fr.length df = false) : remP snap o fr df = remQ snap o fr df := by
+  cases df with
+  | nil => rfl
+  | cons d ds =>
+    obtain ⟨dd, de⟩ := d
+    simp only [deferredReady, decide_eq_false_iff_not] at h
+    simp [remP, h]
+
+theorem remP_pop_deferred (snap : Snap) (o : Opts) (fr : List (List Entry)) (d : Nat × Entry) (ds : List (Nat × Entry))
+    (hi : Dinv fr (d :: ds)) (h : deferredReady fr.length (d :: ds) = true) :
+    remP snap o fr (d :: ds) = d.2 :: remP snap o fr ds ∧ Dinv fr ds := by
+  obtain ⟨dd, de⟩ := d
+  obtain ⟨h1, h2⟩ := hi
+  simp only [deferredReady, decide_eq_true_eq] at h
+  have hnr : deferredReady fr.length ds = false := by
+    cases ds with
+    | nil => rfl
+    | cons d' ds' =>
+      obtain ⟨dd', de'⟩ := d'
+      simp only [deferredReady, decide_eq_false_iff_not]
+      have := h2.1
+      omega
+  refine ⟨?_, DOk.mono (by omega) h2⟩
+  rw [remP_not_ready snap o fr ds hnr]
   simp [remP, h]
 
-theorem remP_pop_frame (snap : Snap) (o : Opts) (fb : List (List Entry)) (df : List Entry)
-    (h : df.length = fb.length + 1) : remP snap o ([] :: fb) df = remP snap o fb df := by
-  simp [remP, h, remQ]
+theorem remP_pop_frame (snap : Snap) (o : Opts) (fb : List (List Entry)) (df : List (Nat × Entry))
+    (hi : Dinv ([] :: fb) df) (h : deferredReady (fb.length + 1) df = false) :
+    remP snap o ([] :: fb) df = remP snap o fb df ∧ Dinv fb df := by
+  have h' : deferredReady ([] :: fb : List (List Entry)).length df = false := h
+  rw [remP_not_ready snap o _ df h']
+  cases df with
+  | nil => exact ⟨by simp [remQ, remP], trivial⟩
+  | cons d ds =>
+    obtain ⟨dd, de⟩ := d
+    simp only [deferredReady, decide_eq_false_iff_not] at h
+    refine ⟨?_, ⟨by omega, hi.2⟩⟩
+    by_cases hd : dd = fb.length
+    · have : fb.length ≤ dd := by omega
+      simp [remQ, remP, hd]
+    · have : ¬ fb.length ≤ dd := by omega
+      simp [remQ, remP, hd, this]
 
-theorem remP_step_dir {snap : Snap} (hwf : SnapWf snap) {o : Opts} (ho : PostOk o) {x : Entry}
-    (hx : InSnap snap x) (hd : x.dir = true) (xs : List Entry) (fb : List (List Entry)) (df : List Entry)
-    (h : df.length = fb.length + 1) :
-    remP snap o ((x :: xs) :: fb) df =
-      remP snap o ((if descends o x (fb.length + 1) then [children snap o x] else []) ++ xs :: fb) (x :: df) := by
-  by_cases hdesc : descends o x (fb.length + 1) = true
-  · simp [remP, h, remQ, W_post_dir hwf ho _ hx hd, hdesc, List.append_assoc]
-  · simp [remP, h, remQ, W_post_dir hwf ho _ hx hd, hdesc, List.append_assoc]
+/-- `remQ` of a stack whose top frame starts with `x`, in terms of the rest -/
+theorem remQ_cons_item (snap : Snap) (o : Opts) (x : Entry) (xs : List Entry) (fb : List (List Entry))
+    (df : List (Nat × Entry)) :
+    remQ snap o ((x :: xs) :: fb) df = W snap o x (fb.length + 1) ++ remQ snap o (xs :: fb) df := by
+  cases df with
+  | nil => simp [remQ, List.append_assoc]
+  | cons d ds => obtain ⟨dd, de⟩ := d; simp [remQ, List.append_assoc]
 
-theorem remP_step_file {snap : Snap} (hwf : SnapWf snap) {o : Opts} (ho : PostOk o) {x : Entry}
-    (hx : InSnap snap x) (hd : x.dir = false) (xs : List Entry) (fb : List (List Entry)) (df : List Entry)
-    (h : df.length = fb.length + 1) :
-    remP snap o ((x :: xs) :: fb) df = (if o.dirs then [] else [x]) ++ remP snap o (xs :: fb) df := by
-  cases hdd : o.dirs <;> simp [remP, h, remQ, W_post_file hwf ho _ hx hd, hdd]
+theorem remP_step_dir {snap : Snap} (hwf : SnapWf snap) {o : Opts} (hcf : o.contentsFirst = true) {x : Entry}
+    (hx : InSnap snap x) (hd : x.dir = true) (xs : List Entry) (fb : List (List Entry)) (df : List (Nat × Entry))
+    (hi : Dinv ((x :: xs) :: fb) df) (h : deferredReady (fb.length + 1) df = false) :
+    let fr' := (if descends o x (fb.length + 1) then [children snap o x] else []) ++ xs :: fb
+    let df' := if selected o x (fb.length + 1) then (fb.length + 1, x) :: df else df
+    remP snap o ((x :: xs) :: fb) df = remP snap o fr' df' ∧ Dinv fr' df' := by
+  have h0 : deferredReady ((x :: xs) :: fb : List (List Entry)).length df = false := h
+  have hlow : DOk (fb.length + 1) df := by
+    cases df with
+    | nil => trivial
+    | cons d ds =>
+      obtain ⟨dd, de⟩ := d
+      simp only [deferredReady, decide_eq_false_iff_not] at h
+      exact ⟨by omega, hi.2⟩
+  rw [remP_not_ready snap o _ df h0, remQ_cons_item, W_cf_dir hwf hcf _ hx hd]
+  have hrest : remQ snap o (xs :: fb) df = remP snap o (xs :: fb) df :=
+    (remP_not_ready snap o (xs :: fb) df h).symm
+  by_cases hsel : selected o x (fb.length + 1) = true
+  · have hs : selfS o x (fb.length + 1) = [x] := by simp [selfS, hsel]
+    by_cases hdesc : descends o x (fb.length + 1) = true
+    · simp only [hsel, if_true, hdesc, List.singleton_append, hs]
+      refine ⟨?_, ⟨by simp, hlow⟩⟩
+      have hnr : deferredReady (children snap o x :: xs :: fb : List (List Entry)).length ((fb.length + 1, x) :: df) = false := by
+        simp [deferredReady]
+      rw [remP_not_ready snap o _ _ hnr]
+      simp [remQ, List.append_assoc]
+    · simp only [hsel, if_true, hdesc, Bool.false_eq_true, if_false, List.nil_append, hs]
+      exact ⟨by simp [remP], ⟨by simp, hlow⟩⟩
+  · have hs : selfS o x (fb.length + 1) = [] := by simp [selfS, hsel]
+    by_cases hdesc : descends o x (fb.length + 1) = true
+    · simp only [hsel, Bool.false_eq_true, if_false, hdesc, if_true, List.singleton_append, hs, List.append_nil]
+      refine ⟨?_, DOk.mono (by simp) hi⟩
+      have hnr : deferredReady (children snap o x :: xs :: fb : List (List Entry)).length df = false := by
+        cases df with
+        | nil => rfl
+        | cons d ds =>
+          obtain ⟨dd, de⟩ := d
+          simp only [deferredReady, decide_eq_false_iff_not, List.length_cons]
+          have := hlow.1
+          omega
+      rw [remP_not_ready snap o _ _ hnr]
+      have hq : remQ snap o (children snap o x :: xs :: fb) df =
+          (children snap o x).flatMap (fun c => W snap o c (fb.length + 1 + 1)) ++ remQ snap o (xs :: fb) df := by
+        cases df with
+        | nil => simp [remQ]
+        | cons d ds =>
+          obtain ⟨dd, de⟩ := d
+          have : dd ≠ fb.length + 1 := by have := hlow.1; omega
+          simp [remQ, this]
+      rw [hq]
+    · simp only [hsel, Bool.false_eq_true, if_false, hdesc, List.nil_append, hs, List.append_nil]
+      exact ⟨hrest, hi⟩
+
+theorem remP_step_file {snap : Snap} (hwf : SnapWf snap) {o : Opts} {x : Entry}
+    (hx : InSnap snap x) (hd : x.dir = false) (xs : List Entry) (fb : List (List Entry)) (df : List (Nat × Entry))
+    (hi : Dinv ((x :: xs) :: fb) df) (h : deferredReady (fb.length + 1) df = false) :
+    remP snap o ((x :: xs) :: fb) df = selfS o x (fb.length + 1) ++ remP snap o (xs :: fb) df ∧
+      Dinv (xs :: fb) df := by
+  have h0 : deferredReady ((x :: xs) :: fb : List (List Entry)).length df = false := h
+  have h1 : deferredReady (xs :: fb : List (List Entry)).length df = false := h
+  rw [remP_not_ready snap o _ df h0, remP_not_ready snap o _ df h1, remQ_cons_item, W_cf_file hwf _ hx hd]
+  exact ⟨rfl, hi⟩
 
 /-- `process` with `contents_first` -/
 theorem process_post {σ} {snap : Snap} (hwf : SnapWf snap) {o : Opts} (hfol : o.follow = false)
-    (ho : PostOk o) (hord : OrdOk o) (st : ISt) (e : Entry) (w : σ) (he : InSnap snap e) :
+    (hcf : o.contentsFirst = true) (hk : KindOk o) (hord : OrdOk o) (st : ISt) (e : Entry) (w : σ) (he : InSnap snap e) :
     ∃ st1 : ISt, st1.started = st.started ∧ st1.deferred = st.deferred ∧
       frames st1 = (if descends o e st.iters.length then [children snap o e] else []) ++ frames st ∧
       process snap o noPre st e w =
-        if e.dir then (none, { st1 with deferred := e :: st1.deferred }, w)
-        else if o.dirs then (none, st1, w) else (some (.ok e), st1, w) := by
+        if selected o e st.iters.length then
+          (if e.dir then (none, { st1 with deferred := (st.iters.length, e) :: st1.deferred }, w)
+           else (some (.ok e), st1, w))
+        else (none, st1, w) := by
   obtain ⟨st1, h1, h2, h3, h4⟩ := process_nf hwf hfol st e w he
   refine ⟨st1, h1, h2, by rw [h3, modelKids_eq hwf hord he], ?_⟩
   rw [h4]
-  cases hd : e.dir <;> cases hdd : o.dirs <;> simp [ho.min, ho.cf, ho.files]
+  have hsel := selected_model hk e st.iters.length
+  by_cases hs : selected o e st.iters.length = true
+  · obtain ⟨ha, hb⟩ := hsel.mpr hs
+    simp only [hs, if_true, ha, if_false, hb, hcf, and_true]
+  · have := mt hsel.mp hs
+    simp only [hs, Bool.false_eq_true, if_false]
+    split
+    · rfl
+    · split
+      · rfl
+      · rename_i ha hb; exact absurd ⟨ha, hb⟩ this
 
 theorem nextLoop_post {σ} {snap : Snap} (hwf : SnapWf snap) {o : Opts} (hfol : o.follow = false)
-    (ho : PostOk o) (hord : OrdOk o) :
+    (hcf : o.contentsFirst = true) (hk : KindOk o) (hord : OrdOk o) :
     ∀ (f : Nat) (st : ISt) (w : σ), FramesOk snap (frames st) → Dinv (frames st) st.deferred →
       workG snap o st < f →
       (remP snap o (frames st) st.deferred = [] ∧ ∃ st', nextLoop snap o noPre f st w = (none, st', w)) ∨
@@ -1335,30 +1452,44 @@ theorem nextLoop_post {σ} {snap : Snap} (hwf : SnapWf snap) {o : Opts} (hfol : 
   | f + 1, st, w, hok, hdi, hwork => by
     obtain ⟨started, openDesc, iters, deferred⟩ := st
     have hfl : (frames ⟨started, openDesc, iters, deferred⟩).length = iters.length := by simp [frames]
-    by_cases hdef : iters.length < deferred.length
-    · have hdl : deferred.length = iters.length + 1 := by
-        rcases hdi with h | h <;> simp only [hfl] at h <;> omega
+    simp only [] at hdi
+    -- a deferred directory is released
+    have hpop : ∀ d ds, deferred = d :: ds →
+        deferredReady (frames ⟨started, openDesc, iters, deferred⟩).length deferred = true →
+        nextLoop snap o noPre (f + 1) ⟨started, openDesc, iters, deferred⟩ w =
+          (some (.ok d.2), ⟨started, openDesc, iters, ds⟩, w) →
+        ∃ e r st', remP snap o (frames ⟨started, openDesc, iters, deferred⟩) deferred = e :: r ∧
+          nextLoop snap o noPre (f + 1) ⟨started, openDesc, iters, deferred⟩ w = (some (.ok e), st', w) ∧
+          st'.started = started ∧ FramesOk snap (frames st') ∧ Dinv (frames st') st'.deferred ∧
+          remP snap o (frames st') st'.deferred = r ∧ workG snap o st' < workG snap o ⟨started, openDesc, iters, deferred⟩ := by
+      intro d ds hd hex hn
+      subst hd
+      obtain ⟨hr, hi2⟩ := remP_pop_deferred snap o _ d ds hdi hex
+      exact ⟨d.2, _, ⟨started, openDesc, iters, ds⟩, hr, hn, rfl, hok, hi2, rfl, by simp [workG, frames]⟩
+    cases iters with
+    | nil =>
       cases deferred with
-      | nil => simp at hdef
-      | cons d ds =>
-        have hds : ds.length = (frames ⟨started, openDesc, iters, d :: ds⟩).length := by
-          rw [hfl]; simpa using hdl
-        refine Or.inr ⟨d, _, ⟨started, openDesc, iters, ds⟩, remP_pop_deferred snap o _ d ds hds, ?_, rfl, hok,
-          Or.inl hds, rfl, by simp [workG, frames]⟩
-        cases iters <;> simp only [nextLoop, ho.cf, hdef, and_self, if_true]
-    · have hdl : deferred.length = iters.length := by
-        rcases hdi with h | h <;> simp only [hfl] at h <;> omega
-      have hdef' : ¬ (o.contentsFirst = true ∧ iters.length < deferred.length) := fun h => hdef h.2
-      cases iters with
       | nil =>
         left
-        have : deferred = [] := List.eq_nil_of_length_eq_zero (by simpa using hdl)
-        subst this
-        exact ⟨by simp [remP, frames, remQ], ⟨started, openDesc, [], []⟩, by simp only [nextLoop, hdef', if_false]⟩
-      | cons top below =>
+        refine ⟨by simp [remP, frames, remQ], ⟨started, openDesc, [], []⟩, ?_⟩
+        simp only [nextLoop]; split <;> rfl
+      | cons d ds =>
+        right
+        exact hpop d ds rfl (by obtain ⟨dd, de⟩ := d; simp [frames, deferredReady])
+          (by simp only [nextLoop, hcf, if_true])
+    | cons top below =>
+      by_cases hrdy : deferredReady (top :: below).length deferred = true
+      · cases deferred with
+        | nil => simp [deferredReady] at hrdy
+        | cons d ds =>
+          right
+          exact hpop d ds rfl (by rw [hfl]; exact hrdy) (by simp only [nextLoop, hcf, hrdy, and_self, if_true])
+      · have hnr : deferredReady (below.length + 1) deferred = false := by
+          simpa using hrdy
+        have hdef' : ¬ (o.contentsFirst = true ∧ deferredReady (top :: below).length deferred = true) :=
+          fun h => hrdy h.2
         obtain ⟨tp, tc, items⟩ := top
-        have hdl' : deferred.length = (frames ⟨started, openDesc, below, deferred⟩).length + 1 := by
-          simp [frames]; simpa using hdl
+        have hbl : (frames ⟨started, openDesc, below, deferred⟩).length = below.length := by simp [frames]
         cases items with
         | nil =>
           have hn : nextLoop snap o noPre (f + 1) ⟨started, openDesc, ⟨tp, tc, []⟩ :: below, deferred⟩ w =
@@ -1367,19 +1498,20 @@ theorem nextLoop_post {σ} {snap : Snap} (hwf : SnapWf snap) {o : Opts} (hfol : 
           have hw1 : workG snap o ⟨started, if tc then openDesc else openDesc - 1, below, deferred⟩ + 1 =
               workG snap o ⟨started, openDesc, ⟨tp, tc, []⟩ :: below, deferred⟩ := by
             simp [workG, frames, workF]; omega
-          have hr : remP snap o (frames ⟨started, openDesc, ⟨tp, tc, []⟩ :: below, deferred⟩) deferred =
-              remP snap o (frames ⟨started, if tc then openDesc else openDesc - 1, below, deferred⟩) deferred :=
-            remP_pop_frame snap o _ deferred hdl'
-          have ih := nextLoop_post hwf hfol ho hord f
+          obtain ⟨hr, hi2⟩ := remP_pop_frame snap o (frames ⟨started, openDesc, below, deferred⟩) deferred hdi
+            (by rw [hbl]; exact hnr)
+          have ih := nextLoop_post hwf hfol hcf hk hord f
             ⟨started, if tc then openDesc else openDesc - 1, below, deferred⟩ w
-            (fun its hi => hok its (List.mem_cons_of_mem _ hi)) (Or.inr hdl') (by omega)
-          rw [hn]; simp only [] at hr ih ⊢; rw [hr]
+            (fun its hi => hok its (List.mem_cons_of_mem _ hi)) hi2 (by omega)
+          have hfr0 : frames ⟨started, openDesc, ⟨tp, tc, []⟩ :: below, deferred⟩ =
+              [] :: frames ⟨started, openDesc, below, deferred⟩ := rfl
+          rw [hn, hfr0, hr]
           rcases ih with ih | ⟨e, r, st', a1, a2, a3, a4, a5, a6, a7⟩
           · exact Or.inl ih
           · exact Or.inr ⟨e, r, st', a1, a2, a3, a4, a5, a6, by omega⟩
         | cons x xs =>
           have hx : InSnap snap x := hok (x :: xs) (by simp [frames]) x List.mem_cons_self
-          obtain ⟨st1, b1, b2, b3, b4⟩ := process_post hwf hfol ho hord
+          obtain ⟨st1, b1, b2, b3, b4⟩ := process_post hwf hfol hcf hk hord
             ⟨started, openDesc, ⟨tp, tc, xs⟩ :: below, deferred⟩ x w hx
           have hfr : frames ⟨started, openDesc, ⟨tp, tc, x :: xs⟩ :: below, deferred⟩ =
               (x :: xs) :: frames ⟨started, openDesc, below, deferred⟩ := rfl
@@ -1387,6 +1519,7 @@ theorem nextLoop_post {σ} {snap : Snap} (hwf : SnapWf snap) {o : Opts} (hfol : 
               xs :: frames ⟨started, openDesc, below, deferred⟩ := rfl
           have hlen : (⟨started, openDesc, ⟨tp, tc, xs⟩ :: below, deferred⟩ : ISt).iters.length =
               (frames ⟨started, openDesc, below, deferred⟩).length + 1 := by simp [frames]
+          rw [hlen] at b4
           rw [hlen, hfr1] at b3
           simp only [] at b2
           have hwk := workF_step hwf (o := o) hx xs (frames ⟨started, openDesc, below, deferred⟩)
@@ -1403,54 +1536,66 @@ theorem nextLoop_post {σ} {snap : Snap} (hwf : SnapWf snap) {o : Opts} (hfol : 
               · rw [h] at hy
                 exact hok (x :: xs) (by simp [frames]) y (List.mem_cons_of_mem _ hy)
               · exact hok its (List.mem_cons_of_mem _ hi) y hy
+          rw [hfr] at hdi
+          have hnr' : deferredReady ((frames ⟨started, openDesc, below, deferred⟩).length + 1) deferred = false := by
+            rw [hbl]; exact hnr
           cases hd : x.dir with
           | true =>
+            obtain ⟨hr, hi2⟩ := remP_step_dir hwf hcf hx hd xs (frames ⟨started, openDesc, below, deferred⟩) deferred hdi hnr'
+            rw [← b3] at hr hi2
+            -- the state after `process`
+            obtain ⟨st2, hst2, hfr2, hdf2, hs2⟩ : ∃ st2 : ISt,
+                process snap o noPre ⟨started, openDesc, ⟨tp, tc, xs⟩ :: below, deferred⟩ x w = (none, st2, w) ∧
+                frames st2 = frames st1 ∧
+                st2.deferred = (if selected o x ((frames ⟨started, openDesc, below, deferred⟩).length + 1) then
+                  ((frames ⟨started, openDesc, below, deferred⟩).length + 1, x) :: deferred else deferred) ∧
+                st2.started = started := by
+              rw [b4]
+              simp only [hd, if_true]
+              split
+              · exact ⟨_, rfl, rfl, by simp [b2], b1⟩
+              · exact ⟨st1, rfl, rfl, b2, b1⟩
             have hn : nextLoop snap o noPre (f + 1) ⟨started, openDesc, ⟨tp, tc, x :: xs⟩ :: below, deferred⟩ w =
-                nextLoop snap o noPre f { st1 with deferred := x :: deferred } w := by
-              simp only [nextLoop, hdef', if_false, hfol, doFollow_false, b4, hd, if_true, b2]
-            have hr := remP_step_dir hwf ho hx hd xs (frames ⟨started, openDesc, below, deferred⟩) deferred hdl'
-            rw [← b3, ← hfr] at hr
-            have hdi2 : Dinv (frames st1) (x :: deferred) := by
-              rw [b3]
-              split <;> simp [Dinv] <;> omega
-            have hw2 : workG snap o { st1 with deferred := x :: deferred } + 1 ≤
+                nextLoop snap o noPre f st2 w := by
+              simp only [nextLoop, hdef', if_false, hfol, doFollow_false, hst2]
+            have hw2 : workG snap o st2 + 1 ≤
                 workG snap o ⟨started, openDesc, ⟨tp, tc, x :: xs⟩ :: below, deferred⟩ := by
-              simp only [workG, hfr, List.length_cons]
-              have : frames { st1 with deferred := x :: deferred } = frames st1 := rfl
-              rw [this]; omega
-            have ih := nextLoop_post hwf hfol ho hord f { st1 with deferred := x :: deferred } w hok1 hdi2 (by omega)
-            rw [hn]; simp only [] at ih ⊢; rw [hr]
+              have hdl : st2.deferred.length ≤ deferred.length + 1 := by
+                rw [hdf2]; split <;> simp
+              simp only [workG, hfr, hfr2]
+              omega
+            rw [← hfr2, ← hdf2] at hr hi2
+            have ih := nextLoop_post hwf hfol hcf hk hord f st2 w (hfr2 ▸ hok1) hi2 (by omega)
+            rw [hn, hfr, hr]
             rcases ih with ih | ⟨e, r, st', a1, a2, a3, a4, a5, a6, a7⟩
             · exact Or.inl ih
-            · exact Or.inr ⟨e, r, st', a1, a2, a3.trans b1, a4, a5, a6, by omega⟩
+            · exact Or.inr ⟨e, r, st', a1, a2, a3.trans hs2, a4, a5, a6, by omega⟩
           | false =>
-            have hr := remP_step_file hwf ho hx hd xs (frames ⟨started, openDesc, below, deferred⟩) deferred hdl'
+            obtain ⟨hr, hi2⟩ := remP_step_file hwf hx hd xs (frames ⟨started, openDesc, below, deferred⟩) deferred hdi hnr'
             have hnd : descends o x ((frames ⟨started, openDesc, below, deferred⟩).length + 1) = false := by
               simp [descends, hd]
             rw [hnd] at b3
             simp only [Bool.false_eq_true, if_false, List.nil_append] at b3
-            rw [← b3, ← hfr] at hr
-            have hdi1 : Dinv (frames st1) st1.deferred := by
-              rw [b3, b2]; exact Or.inl (by simpa using hdl')
+            rw [← b3, ← b2] at hi2
+            rw [← b3] at hr
             have hw1 : workG snap o st1 + 2 ≤
                 workG snap o ⟨started, openDesc, ⟨tp, tc, x :: xs⟩ :: below, deferred⟩ := by
               simp only [workG, hfr, b2]
               omega
-            cases hdd : o.dirs with
-            | false =>
-              have hn : nextLoop snap o noPre (f + 1) ⟨started, openDesc, ⟨tp, tc, x :: xs⟩ :: below, deferred⟩ w =
+            simp only [hd, Bool.false_eq_true, if_false] at b4
+            by_cases hy : selected o x ((frames ⟨started, openDesc, below, deferred⟩).length + 1) = true
+            · have hn : nextLoop snap o noPre (f + 1) ⟨started, openDesc, ⟨tp, tc, x :: xs⟩ :: below, deferred⟩ w =
                   (some (.ok x), st1, w) := by
-                simp only [nextLoop, hdef', if_false, hfol, doFollow_false, b4, hd, hdd, Bool.false_eq_true]
-              simp only [hdd, Bool.false_eq_true, if_false, List.singleton_append] at hr
-              exact Or.inr ⟨x, _, st1, by rw [hr, b2], hn, b1, hok1, hdi1, rfl, by omega⟩
-            | true =>
-              have hn : nextLoop snap o noPre (f + 1) ⟨started, openDesc, ⟨tp, tc, x :: xs⟩ :: below, deferred⟩ w =
+                simp only [nextLoop, hdef', if_false, hfol, doFollow_false, b4, if_pos hy]
+              rw [selfS, if_pos hy, List.singleton_append] at hr
+              exact Or.inr ⟨x, _, st1, by rw [hfr, hr, b2], hn, b1, hok1, hi2, rfl, by omega⟩
+            · have hn : nextLoop snap o noPre (f + 1) ⟨started, openDesc, ⟨tp, tc, x :: xs⟩ :: below, deferred⟩ w =
                   nextLoop snap o noPre f st1 w := by
-                simp only [nextLoop, hdef', if_false, hfol, doFollow_false, b4, hd, hdd, Bool.false_eq_true, if_true]
-              simp only [hdd, if_true, List.nil_append] at hr
-              have ih := nextLoop_post hwf hfol ho hord f st1 w hok1 hdi1 (by omega)
+                simp only [nextLoop, hdef', if_false, hfol, doFollow_false, b4, if_neg hy]
+              rw [selfS, if_neg hy, List.nil_append] at hr
+              have ih := nextLoop_post hwf hfol hcf hk hord f st1 w hok1 hi2 (by omega)
               rw [b2] at ih
-              rw [hn]; simp only [] at ih ⊢; rw [hr]
+              rw [hn, hfr, hr]
               rcases ih with ih | ⟨e, r, st', a1, a2, a3, a4, a5, a6, a7⟩
               · exact Or.inl ih
               · exact Or.inr ⟨e, r, st', a1, a2, a3.trans b1, a4, a5, a6, by omega⟩
@@ -1463,7 +1608,7 @@ def StOkP (snap : Snap) (st : ISt) : Prop :=
     (st.started = false → st.iters = [] ∧ st.deferred = [])
 
 theorem nextE_post {σ} {snap : Snap} (hwf : SnapWf snap) {o : Opts} (hfol : o.follow = false)
-    (ho : PostOk o) (hord : OrdOk o) {rootE : Entry} (hr : InSnap snap rootE)
+    (hcf : o.contentsFirst = true) (hk : KindOk o) (hord : OrdOk o) {rootE : Entry} (hr : InSnap snap rootE)
     (f : Nat) (st : ISt) (w : σ) (hok : StOkP snap st) (hwork : workGS snap o rootE st < f) :
     (remSP snap o rootE st = [] ∧ ∃ st', nextE snap o noPre rootE f st w = (none, st', w)) ∨
     (∃ e r st', remSP snap o rootE st = e :: r ∧ nextE snap o noPre rootE f st w = (some (.ok e), st', w) ∧
@@ -1474,15 +1619,15 @@ theorem nextE_post {σ} {snap : Snap} (hwf : SnapWf snap) {o : Opts} (hfol : o.f
     have h2 : remSP snap o rootE st = remP snap o (frames st) st.deferred := by simp [remSP, hs]
     have h3 : workGS snap o rootE st = workG snap o st := by simp [workGS, hs]
     rw [h1, h2, h3]; rw [h3] at hwork
-    rcases nextLoop_post hwf hfol ho hord f st w hok.1 (hok.2.1 hs) hwork with h | ⟨e, r, st', a1, a2, a3, a4, a5, a6, a7⟩
+    rcases nextLoop_post hwf hfol hcf hk hord f st w hok.1 (hok.2.1 hs) hwork with h | ⟨e, r, st', a1, a2, a3, a4, a5, a6, a7⟩
     · exact Or.inl h
     · have hs' : st'.started = true := a3.trans hs
       exact Or.inr ⟨e, r, st', a1, a2, ⟨a4, fun _ => a5, by simp [hs']⟩, by simp [remSP, hs', a6], by simp [workGS, hs', a7]⟩
   | false =>
     obtain ⟨hit, hdf⟩ := hok.2.2 hs
-    obtain ⟨st1, b1, b2, b3, b4⟩ := process_post hwf hfol ho hord { st with started := true } rootE w hr
+    obtain ⟨st1, b1, b2, b3, b4⟩ := process_post hwf hfol hcf hk hord { st with started := true } rootE w hr
     have hlen : ({ st with started := true } : ISt).iters.length = 0 := by simp [hit]
-    rw [hlen] at b3
+    rw [hlen] at b3 b4
     simp only [hit, hdf, frames, List.map_nil, List.append_nil] at b2 b3
     have hs1 : st1.started = true := b1
     have h2 : remSP snap o rootE st = W snap o rootE 0 := by simp [remSP, hs]
@@ -1500,21 +1645,36 @@ theorem nextE_post {σ} {snap : Snap} (hwf : SnapWf snap) {o : Opts} (hfol : o.f
     rw [h2, h3]; rw [h3] at hwork
     cases hd : rootE.dir with
     | true =>
-      have hn : nextE snap o noPre rootE f st w = nextLoop snap o noPre f { st1 with deferred := [rootE] } w := by
-        simp only [nextE, hs, hfol, doFollow_false, Bool.not_false, if_true, b4, hd, b2]
-      have hdi : Dinv (frames st1) [rootE] := by
-        unfold frames; rw [b3]; split <;> simp [Dinv]
-      have hrem : remP snap o (frames st1) [rootE] = W snap o rootE 0 := by
-        rw [W_post_dir hwf ho 0 hr hd]
-        unfold frames; rw [b3]; split <;> simp [remP, remQ]
-      have hw2 : workG snap o { st1 with deferred := [rootE] } + 1 ≤ 3 * (W snap (oM o) rootE 0).length := by
-        have : frames { st1 with deferred := [rootE] } = frames st1 := rfl
-        simp only [workG, this, List.length_singleton]; omega
+      -- the state after `process`
+      obtain ⟨st2, hst2, hfr2, hdf2, hs2⟩ : ∃ st2 : ISt,
+          process snap o noPre { st with started := true } rootE w = (none, st2, w) ∧
+          frames st2 = frames st1 ∧
+          st2.deferred = (if selected o rootE 0 then [(0, rootE)] else []) ∧ st2.started = true := by
+        rw [b4]
+        simp only [hd, if_true]
+        split
+        · exact ⟨_, rfl, rfl, by simp [b2], b1⟩
+        · exact ⟨st1, rfl, rfl, b2, b1⟩
+      have hn : nextE snap o noPre rootE f st w = nextLoop snap o noPre f st2 w := by
+        simp only [nextE, hs, hfol, doFollow_false, Bool.not_false, if_true, hst2]
+      have hfr1 : frames st1 = if descends o rootE 0 then [children snap o rootE] else [] := by
+        unfold frames; rw [b3]
+      have hdi : Dinv (frames st2) st2.deferred := by
+        rw [hfr2, hdf2]
+        split
+        · exact ⟨by omega, trivial⟩
+        · trivial
+      have hrem : remP snap o (frames st2) st2.deferred = W snap o rootE 0 := by
+        rw [W_cf_dir hwf hcf 0 hr hd, hfr2, hdf2, hfr1]
+        cases hsl : selected o rootE 0 <;> cases hds : descends o rootE 0 <;> simp [remP, remQ, selfS, hsl]
+      have hw2 : workG snap o st2 + 1 ≤ 3 * (W snap (oM o) rootE 0).length := by
+        have hdl : st2.deferred.length ≤ 1 := by rw [hdf2]; split <;> simp
+        simp only [workG, hfr2]; omega
       rw [hn, ← hrem]
-      rcases nextLoop_post hwf hfol ho hord f { st1 with deferred := [rootE] } w hok1 hdi (by omega)
+      rcases nextLoop_post hwf hfol hcf hk hord f st2 w (hfr2 ▸ hok1) hdi (by omega)
         with h | ⟨e, r, st', a1, a2, a3, a4, a5, a6, a7⟩
       · exact Or.inl h
-      · have hs' : st'.started = true := a3.trans hs1
+      · have hs' : st'.started = true := a3.trans hs2
         refine Or.inr ⟨e, r, st', a1, a2, ⟨a4, fun _ => a5, by simp [hs']⟩, by simp [remSP, hs', a6], ?_⟩
         simp only [workGS, hs', if_true]; omega
     | false =>
@@ -1522,52 +1682,56 @@ theorem nextE_post {σ} {snap : Snap} (hwf : SnapWf snap) {o : Opts} (hfol : o.f
       rw [hnd] at b3
       simp only [Bool.false_eq_true, if_false] at b3
       have hfr : frames st1 = [] := by unfold frames; rw [b3]
-      rw [W_post_file hwf ho 0 hr hd]
-      cases hdd : o.dirs with
-      | false =>
+      rw [W_cf_file hwf 0 hr hd]
+      simp only [hd, Bool.false_eq_true, if_false] at b4
+      have hdi1 : Dinv (frames st1) st1.deferred := by
+        rw [hfr, b2]; trivial
+      cases hy : selected o rootE 0 with
+      | true =>
         have hn : nextE snap o noPre rootE f st w = (some (.ok rootE), st1, w) := by
-          simp only [nextE, hs, hfol, doFollow_false, Bool.not_false, if_true, b4, hd, hdd, Bool.false_eq_true, if_false]
+          simp only [nextE, hs, hfol, doFollow_false, Bool.not_false, if_true, b4, hy]
         rw [hn]
-        refine Or.inr ⟨rootE, [], st1, by simp, rfl, ⟨hok1, fun _ => by rw [hfr, b2]; exact Or.inl rfl, by simp [hs1]⟩, ?_, ?_⟩
+        refine Or.inr ⟨rootE, [], st1, by simp [selfS, hy], rfl, ⟨hok1, fun _ => hdi1, by simp [hs1]⟩, ?_, ?_⟩
         · simp [remSP, hs1, hfr, b2, remP, remQ]
         · simp only [workGS, hs1, if_true, workG, b2, List.length_nil]; omega
-      | true =>
+      | false =>
         have hn : nextE snap o noPre rootE f st w = nextLoop snap o noPre f st1 w := by
-          simp only [nextE, hs, hfol, doFollow_false, Bool.not_false, if_true, b4, hd, hdd, Bool.false_eq_true, if_false]
+          simp only [nextE, hs, hfol, doFollow_false, Bool.not_false, if_true, b4, hy, Bool.false_eq_true, if_false]
         left
         obtain ⟨f', rfl⟩ : ∃ f', f = f' + 1 := ⟨f - 1, by omega⟩
         have hit1 : st1.iters = [] := by simpa [frames] using hfr
-        refine ⟨by simp, st1, ?_⟩
+        refine ⟨by simp [selfS, hy], st1, ?_⟩
         rw [hn]
         obtain ⟨s1, s2, s3, s4⟩ := st1
         simp only [] at hit1 b2
         subst hit1; subst b2
-        simp [nextLoop]
+        simp only [nextLoop]; split <;> rfl
 
 theorem runIter_post {snap : Snap} (hwf : SnapWf snap) {o : Opts} (hfol : o.follow = false)
-    (ho : PostOk o) (hord : OrdOk o) {rootE : Entry} (hr : InSnap snap rootE) :
+    (hcf : o.contentsFirst = true) (hk : KindOk o) (hord : OrdOk o) {rootE : Entry} (hr : InSnap snap rootE) :
     ∀ (f : Nat) (st : ISt) (acc : List Entry), StOkP snap st → workGS snap o rootE st < f →
       runIter snap o noPre rootE (fun e (acc : List Entry) => (.ok (), e :: acc)) f st acc =
         (.ok (), (remSP snap o rootE st).reverse ++ acc)
   | 0, _, _, _, h => by omega
   | f + 1, st, acc, hok, hwork => by
     unfold runIter
-    rcases nextE_post hwf hfol ho hord hr (f + 1) st acc hok hwork with ⟨h1, st', h2⟩ | ⟨e, r, st', h1, h2, h3, h4, h5⟩
+    rcases nextE_post hwf hfol hcf hk hord hr (f + 1) st acc hok hwork with ⟨h1, st', h2⟩ | ⟨e, r, st', h1, h2, h3, h4, h5⟩
     · rw [h2, h1]; rfl
     · rw [h2, h1]
       simp only []
-      rw [runIter_post hwf hfol ho hord hr f st' (e :: acc) h3 (by omega), h4]
+      rw [runIter_post hwf hfol hcf hk hord hr f st' (e :: acc) h3 (by omega), h4]
       simp
 
+/-- `contents_first`, every depth window and (exclusive) kind filter: the machine yields the walk -/
 theorem collectEntries_post {snap : Snap} (hwf : SnapWf snap) {o : Opts} (hfol : o.follow = false)
-    (ho : PostOk o) (hord : OrdOk o) {rootE : Entry} (hr : InSnap snap rootE) :
+    (hcf : o.contentsFirst = true) (hk : KindOk o) (hord : OrdOk o) {rootE : Entry} (hr : InSnap snap rootE) :
     collectEntries snap o rootE = .ok (entriesSpec snap o rootE) := by
   unfold collectEntries
   have hw : workGS snap o rootE {} < travFuel snap := by
     have := W_length_le hwf (oM o) 0 hr
     have := travFuel_gt snap
     simp only [workGS]; simp; omega
-  rw [runIter_post hwf hfol ho hord hr (travFuel snap) {} []
+  rw [runIter_post hwf hfol hcf hk hord hr (travFuel snap) {} []
     ⟨by simp [FramesOk, frames], by simp, fun _ => ⟨rfl, rfl⟩⟩ hw]
   simp [remSP, entriesSpec_eq_W hwf o hr]
 /-! ### declarative membership -/
@@ -1684,7 +1848,7 @@ theorem collectEntries_exact {snap : Snap} (hwf : SnapWf snap) {o : Opts} (hdom 
     collectEntries snap o rootE = .ok (entriesSpec snap o rootE) := by
   obtain ⟨hfol, hord, h | h⟩ := hdom
   · exact collectEntries_pre hwf hfol h.1 hord h.2 hr
-  · exact collectEntries_post hwf hfol ⟨h.1, h.2.1, h.2.2.1⟩ hord hr
+  · exact collectEntries_post hwf hfol h.1 (by unfold KindOk; simp [h.2.2.1]) hord hr
 
 /-! ## Part E: the listing helpers (paths, dirs, files, all_*) -/
 
